@@ -561,7 +561,7 @@ const preludeFuns = `
 (declare-fun validAddr (Str) Bool)
 (assert (forall ((a Addr)) (! (and (= (addrOf (addrStr a)) a)) :pattern ((addrStr a)))))
 (assert (forall ((a Addr)) (! (=> (not (= a addr_nil)) (validAddr (addrStr a))) :pattern ((addrStr a)))))
-(assert (forall ((s Str)) (! (=> (validAddr s) (= (addrStr (addrOf s)) s)) :pattern ((addrOf s)))))
+(assert (forall ((s Str)) (! (=> (validAddr s) (and (= (addrStr (addrOf s)) s) (not (= (addrOf s) addr_nil)))) :pattern ((addrOf s)))))
 (declare-const H Int)
 (assert (>= H 0))
 (assert (<= H 9223372036854775807))
